@@ -23,6 +23,7 @@ type c16Case struct {
 	Mode    string `json:"mode"`    // len | block | random
 	Mangler int    `json:"mangler"` // 0 nil, 1 identity, 2 reverse, 3 shuffle, 4 rotate
 	WV      bool   `json:"with_value"`
+	Cmp     int    `json:"cmp"` // key order of the collection: 0 bytes.Compare (nil), 1 reversed, 2 length then bytes
 }
 
 func c16Keys(c c16Case) [][]byte {
@@ -89,16 +90,22 @@ func runC16(c c16Case) (res string) {
 		var mf *MemFile
 		var s *gkvlite.Store
 		var err error
+		var cmp gkvlite.KeyCompare // nil = bytes.Compare
+		cb := gkvlite.StoreCallbacks{}
+		if c.Cmp != 0 {
+			cmp = comparators[c.Cmp]
+			cb.KeyCompareForCollection = func(string) gkvlite.KeyCompare { return cmp }
+		}
 		if c.File {
 			mf = NewMemFile()
-			s, err = gkvlite.NewStore(mf)
+			s, err = gkvlite.NewStoreEx(mf, cb)
 		} else {
-			s, err = gkvlite.NewStore(nil)
+			s, err = gkvlite.NewStoreEx(nil, cb)
 		}
 		if err != nil {
 			return "open: " + err.Error()
 		}
-		col := s.SetCollection("c", nil)
+		col := s.SetCollection("c", cmp)
 		keys := c16Keys(c)
 		r := NewRng(c.KeySeed + 7)
 		for _, k := range keys {
@@ -110,7 +117,7 @@ func runC16(c c16Case) (res string) {
 			if err := s.Flush(); err != nil {
 				return "flush: " + err.Error()
 			}
-			s, err = gkvlite.NewStore(mf)
+			s, err = gkvlite.NewStoreEx(mf, cb)
 			if err != nil {
 				return "reopen: " + err.Error()
 			}
@@ -207,7 +214,7 @@ func runC16(c c16Case) (res string) {
 				for i, k := range keys {
 					sorted[i] = string(k)
 				}
-				sort.Strings(sorted)
+				sort.Slice(sorted, func(a, b int) bool { return comparators[c.Cmp]([]byte(sorted[a]), []byte(sorted[b])) < 0 })
 				pos := map[string]int{}
 				for i, k := range sorted {
 					pos[k] = i
@@ -241,7 +248,7 @@ func checkC16(rep *Report, rng *Rng, tier string) {
 			sizes = append(sizes, k*1024+d)
 		}
 	}
-	rep.Rule = fmt.Sprintf("every collection size n in 0..%d and k*1024-%d..k*1024+%d for k<=%d; per size: Len(), VisitItemsAscendBlockEx under nil/identity/reverse/shuffle/rotate block manglers (both value modes) and VisitItemsRandom; two key sets (padded decimal, random bytes), memory-only and flushed+re-opened (nothing cached); oracle: every key delivered exactly once and nothing else; non-trivial = n>=1, distinct = (n, mode, mangler, key set, backing)", small, around, around, maxk)
+	rep.Rule = fmt.Sprintf("every collection size n in 0..%d and k*1024-%d..k*1024+%d for k<=%d; per size: Len(), VisitItemsAscendBlockEx under nil/identity/reverse/shuffle/rotate block manglers (both value modes) and VisitItemsRandom; two key sets (padded decimal, random bytes), three key orders (bytes.Compare, reversed, length-then-bytes), memory-only and flushed+re-opened (nothing cached); oracle: every key delivered exactly once and nothing else; non-trivial = n>=1, distinct = (n, mode, mangler, key set, backing)", small, around, around, maxk)
 	hist := map[string]int{}
 	for _, n := range sizes {
 		var cases []c16Case
@@ -262,7 +269,9 @@ func checkC16(rep *Report, rng *Rng, tier string) {
 			cases = append(cases, c16Case{N: n, KeySeed: ks, KeyMode: km, File: fb, Mode: "block", Mangler: m, WV: true})
 			cases = append(cases, c16Case{N: n, KeySeed: ks, KeyMode: km, File: fb, Mode: "block", Mangler: 3, WV: false})
 		}
+		cm := rng.Intn(3) // the key order of this size's collection
 		for _, c := range cases {
+			c.Cmp = cm
 			rep.Evaluations++
 			hist[c.Mode]++
 			if c.N >= 1 {
